@@ -110,7 +110,7 @@ def run_component(prop, tier, replay, C):
         nscript = nsteps = drift = 0
         results = [fu.result() for fu in [ex.submit(one, i, p) for i, p in enumerate(shards)]]
         # second wave: truly parallel storms get the machine almost to themselves (few processes, after the first wave)
-        wave2 = [] if replay else C.get("scenarios_wave2", lambda q, sd: [])(quick, seed)
+        wave2 = [] if (replay or os.environ.get("VERIF_NO_STORMS") == "1") else C.get("scenarios_wave2", lambda q, sd: [])(quick, seed)
         if wave2:
             n2 = C.get("wave2_shards", 4)
             results += [fu.result() for fu in [ex.submit(one, 1000 + i, wave2[i::n2]) for i in range(n2)]]
